@@ -133,9 +133,16 @@ def findIdLoc (lines : List Str) (id : Str) (start : Nat × Nat) (shift : Nat) (
 def declaredAt (site : Generated.CallSite) (lines : List Str) (name : Str) (start : Nat × Nat) : Nat × Nat :=
   findIdLoc lines (if site.spacePrefixed then ' ' :: name else name) start site.shift site.delims
 
-/-! legacy variants (before commit 3df0373), kept for the witnesses -/
+/-! legacy variants (before commits 3df0373 and 50717df), kept for the witnesses -/
 
 def legacyEndDelims : List Char := [' ', '\t', '\n', '\r', '\x0b', '\x0c', ')', ',', '.', ';']
+
+/-- end delimiters between 3df0373 and 50717df: without `[` (PEP 695 type-parameter lists) -/
+def pre695EndDelims : List Char := [' ', '\t', '\n', '\r', '\x0b', '\x0c', ')', ',', '.', ';', '(', ':', '#', '\\']
+
+/-- def / class / import names before 50717df -/
+def findIdLocPre695 (lines : List Str) (id : Str) (start : Nat × Nat) (shift : Nat) (delims : Bool) : Nat × Nat :=
+  findIdLocWith Generated.importDelims pre695EndDelims lines id start shift delims
 
 /-- import names before the fix: the same search with the shorter end-delimiter set -/
 def findIdLocLegacy (lines : List Str) (id : Str) (start : Nat × Nat) (shift : Nat) (delims : Bool) : Nat × Nat :=
@@ -229,7 +236,8 @@ def markLine (line : Str) (col : Nat) : Str :=
     the lines of the marked source (`self.lines`; `self.source` is their `joinNl`) -/
 def markLines (lines0 : List Str) (ln col : Nat) : Except PyErr (List Str) :=
   let lines := if lines0.isEmpty then [[]] else lines0
-  let lines := if ln > lines.length then lines ++ [[]] else lines
+  -- if ln > len(lines): lines.extend([''] * (ln - len(lines)))   (a cursor below the text)
+  let lines := if ln > lines.length then lines ++ List.replicate (ln - lines.length) [] else lines
   -- lines[ln-1]: ln = 0 is index -1 (the last line)
   let i := if ln = 0 then lines.length - 1 else ln - 1
   match lines[i]? with
